@@ -47,6 +47,9 @@ func (fr *frame) execInstr(ins ssa.Instruction, st *State, reach *string) bool {
 	case *ssa.BinOp:
 		fr.set(x, fr.binop(x, fr.val(x.X), fr.val(x.Y), *reach))
 	case *ssa.UnOp:
+		if x.Op == token.MUL {
+			fr.monitorAccessAt(x, x.X, st, *reach)
+		}
 		fr.unop(x, st, reach)
 	case *ssa.Call:
 		res := fr.call(&x.Call, st, reach, x)
@@ -84,6 +87,7 @@ func (fr *frame) execInstr(ins ssa.Instruction, st *State, reach *string) bool {
 		if pi.Kind == pkCell {
 			panic(unsupported("FieldAddr on cell pointer " + p.T.String()))
 		}
+		fr.guardObligation(x, p, st, *reach)
 		fr.set(x, Val{L: p.L, P: &np})
 	case *ssa.IndexAddr:
 		fr.indexAddr(x, st, *reach)
@@ -99,6 +103,7 @@ func (fr *frame) execInstr(ins ssa.Instruction, st *State, reach *string) bool {
 		}
 		panic(unsupported("Index on array value"))
 	case *ssa.Lookup:
+		fr.monitorAccessAt(x, x.X, st, *reach)
 		fr.lookup(x, st, *reach)
 	case *ssa.MakeChan:
 		fr.set(x, Val{L: []string{ex.alloc(st)}})
@@ -121,6 +126,7 @@ func (fr *frame) execInstr(ins ssa.Instruction, st *State, reach *string) bool {
 		ex.zeroArray(st, r, x.Type().Underlying().(*types.Slice).Elem())
 		fr.set(x, sliceVal(x.Type(), r, "0", ln, cp))
 	case *ssa.MapUpdate:
+		fr.monitorAccessAt(x, x.Map, st, *reach)
 		m := fr.val(x.Map)
 		fr.safety(x, *reach, not(eq(m.L[0], "0")), "assignment to entry in nil map")
 		k := fr.val(x.Key)
@@ -131,6 +137,7 @@ func (fr *frame) execInstr(ins ssa.Instruction, st *State, reach *string) bool {
 	case *ssa.Slice:
 		fr.sliceOp(x, st, *reach)
 	case *ssa.Store:
+		fr.monitorAccessAt(x, x.Addr, st, *reach)
 		p := fr.val(x.Addr)
 		pi := ptrInfoOf(p)
 		if pi.clean() && pi.Kind != pkArr {
@@ -246,6 +253,12 @@ func (ex *Exec) binopT(op token.Token, opT types.Type, resT types.Type, a, b Val
 		switch op {
 		case token.ADD:
 			ex.declareFun("str.cat", []string{sStr, sStr}, sStr)
+			ex.declareFun("str.after", []string{sStr, sStr}, sStr)
+			// concatenation is injective in its second argument (str.after strips the prefix again)
+			if !ex.strCatAxiom {
+				ex.strCatAxiom = true
+				ex.preAssume = append(ex.preAssume, "(forall ((p!s Str) (y!s Str)) (! (= (str.after p!s (str.cat p!s y!s)) y!s) :pattern ((str.cat p!s y!s))))")
+			}
 			return scalar(resT, app("str.cat", x, y))
 		case token.LSS, token.GTR, token.LEQ, token.GEQ:
 			ex.declareFun("str.lt", []string{sStr, sStr}, sBool)
